@@ -175,7 +175,22 @@ K_FORMS = ['opt-act', 'opt-tmp', 'opt-cd', 'literal', 'opt-strsym', 'dflt-strsym
 K_INSTRS = ['file', 'file=', 'file+=', 'dir', 'dir=', 'copyf', 'copyd']
 
 
+def _s_cases():
+    """S: the SAME path symbol used twice in one instruction -- as source (any relativity is legal) and as
+    destination (only act/tmp/cd): the restriction of every reference must be applied, not only the first one's."""
+    i = 0
+    for base in ('home', 'act-home', 'here', 'act', 'tmp'):
+        for form in ('lead', 'relsym', 'mixed'):
+            for depth in (1, 2):
+                for phase in ('setup', 'before-assert', 'cleanup'):
+                    i += 1
+                    yield {'t': 'S', 'base': base, 'form': form, 'depth': depth, 'phase': phase,
+                           'cwd': 'case' if i % 2 else 'elsewhere'}
+
+
 def cases(tier, seed):
+    for c in _s_cases():
+        yield c
     n = 0
     # ---------------- R core: depth 1 and 2, exhaustive; R_BATCH independent chains share one test case ----
     chains = []
@@ -665,7 +680,84 @@ def _read(p):
 # =====================================================================================================
 # execution
 # =====================================================================================================
+def run_s(case, ctx):
+    ses = ctx.get_session()
+    d = os.path.realpath(ses.new_case_dir({'src.txt': 'source text', 'sub/src.txt': 'source text'}))
+    opt = {'home': '-rel-home', 'act-home': '-rel-act-home', 'here': '-rel-here', 'act': '-rel-act', 'tmp': '-rel-tmp'}
+    base = case['base']
+    defs = ['def path D1 = %s .' % opt[base]]
+    x = 'D1'
+    if case['depth'] == 2:
+        defs.append('def path D2 = @[D1]@/sub')
+        x = 'D2'
+    pre = []
+    if base in ('act', 'tmp'):
+        if case['depth'] == 2:
+            pre.append('dir @[D1]@/sub')
+        pre.append('file @[%s]@/src.txt = "source text"' % x)
+    if case['form'] == 'lead':
+        instr = 'copy @[%s]@/src.txt @[%s]@/generated.txt' % (x, x)
+    elif case['form'] == 'relsym':
+        instr = 'copy -rel %s src.txt -rel %s generated.txt' % (x, x)
+    else:
+        instr = 'copy -rel %s src.txt @[%s]@/generated.txt' % (x, x)
+    L = ['[setup]'] + defs
+    if case['phase'] == 'setup':
+        L += pre + [instr]
+    L += ['[act]', '$ true', '[%s]' % case['phase']] if case['phase'] != 'setup' else ['[act]', '$ true']
+    if case['phase'] != 'setup':
+        L += pre + [instr]
+    text = '\n'.join(L) + '\n'
+    with open(os.path.join(d, 't.case'), 'w') as f:
+        f.write(text)
+    elsewhere = os.path.join(ctx.scratch, 'c12-elsewhere')
+    os.makedirs(elsewhere, exist_ok=True)
+    before = snapshot_tree(d)
+    r = ses.run(['--keep', os.path.join(d, 't.case')], cwd=d if case.get('cwd') == 'case' else elsewhere, mode='keep')
+    after = snapshot_tree(d)
+    viol, inconc = [], []
+    ident = first_line(r.err)
+    label = 'S %s/%s/depth%d copy@%s' % (base, case['form'], case['depth'], case['phase'])
+
+    def bad(msg):
+        viol.append({'what': 'C12 %s: %s' % (label, msg),
+                     'detail': {'case_text': text, 'observed': {'rc': r.rc, 'ident': ident, 'stderr': r.err[:800]}}})
+
+    if r.timed_out:
+        inconc.append('watchdog')
+    elif r.exc is not None:
+        bad('exception escaped MainProgram.execute')
+    else:
+        ctx.count('c12.creation_verdicts_compared')
+        ctx.count('c12.home_snapshots_compared')
+        hd = _diff(before, after)
+        if base in ('home', 'act-home', 'here'):
+            if not (r.rc == 65 and ident == 'VALIDATION_ERROR'):
+                bad('the same path symbol (relative to %s) as source AND destination of copy: the destination must be '
+                    'rejected before execution (VALIDATION_ERROR/65), got %s/%r' % (base, ident, r.rc))
+            if r.new_tmp_entries or any(e[0] == 'tempfile.mkdtemp' for e in r.audit):
+                bad('a sandbox was created although the case must be rejected before execution')
+            if any(hd.values()):
+                bad('home directories modified: %r' % (hd,))
+        else:
+            if not (r.rc == 0 and ident == 'PASS'):
+                bad('copy within %s through the same symbol must PASS, got %s/%r' % (base, ident, r.rc))
+            else:
+                sds = r.out.strip()
+                sub = {'act': 'act', 'tmp': 'tmp'}[base]
+                gp = os.path.join(sds, sub, 'sub' if case['depth'] == 2 else '', 'generated.txt')
+                if _read(gp) != 'source text':
+                    bad('the copied file is not at %s with the source contents' % os.path.relpath(gp, sds))
+            if any(hd.values()):
+                bad('home directories modified: %r' % (hd,))
+    ses.clean_tmp()
+    ses.drop(d)
+    return {'classes': [('S', base, case['form'], case['depth'], case['phase'])], 'viol': viol, 'inconclusive': inconc}
+
+
 def run_case(case, ctx):
+    if case['t'] == 'S':
+        return run_s(case, ctx)
     ses = ctx.get_session()
     out = os.path.join(ses.io_dir, 'c12-probe.jsonl')
     try:
